@@ -234,13 +234,15 @@ fn build(seed: u64, i: usize) -> Built {
         let from_dir = nodes[a].dir.clone();
         let to = nodes[b].path();
         let choice = r.usize(10);
+        // a bare name only reaches the library if no file of that name sits next to the includer
+        let local_clash = nodes.iter().any(|x| x.dir == from_dir && x.name == nodes[b].name && x.path() != to);
         let spelling = if force_bare.contains(&(a, b)) {
             nodes[b].name.clone()
-        } else if lib_dir_given && nodes[b].dir == "lib" && from_dir != "lib" && choice < 4 {
+        } else if lib_dir_given && nodes[b].dir == "lib" && from_dir != "lib" && choice < 4 && !local_clash {
             // through the library directory: bare name, no local file of that name
             shapes.push("via-library-dir");
             nodes[b].name.clone()
-        } else if lib_file == Some(b) && nodes[b].dir != from_dir && choice < 6 {
+        } else if lib_file == Some(b) && nodes[b].dir != from_dir && choice < 6 && !local_clash {
             shapes.push("via-library-file");
             nodes[b].name.clone()
         } else if choice == 4 {
@@ -511,6 +513,17 @@ fn judge(runner: &Runner, b: &Built, o: &Outcome) -> Option<(String, String)> {
         }
     }
     let got: BTreeSet<(String, String)> = out.analyzing.iter().cloned().collect();
+    // a definition the tool had to drop (with an error displayed inside it) is C02's business
+    let dropped: BTreeSet<(String, String)> = out
+        .diags
+        .iter()
+        .filter(|d| d.severity == "error")
+        .filter_map(|d| d.locs.first())
+        .filter_map(|l| b.layout.def_at(&rel_path(&l.path), l.line as usize))
+        .map(|d| (d.0.clone(), d.1.clone()))
+        .collect();
+    let expect: BTreeSet<(String, String)> = expect.difference(&dropped).cloned().collect();
+    let got: BTreeSet<(String, String)> = got.difference(&dropped).cloned().collect();
     if got != expect {
         let missing: Vec<_> = expect.difference(&got).collect();
         let extra: Vec<_> = got.difference(&expect).collect();
@@ -815,4 +828,26 @@ pub fn replay(env: &Env, v: &Value) -> i32 {
     }
     println!("replay: no violation");
     0
+}
+
+/// Development aid: indices of cases with the given named inputs.
+pub fn find_cases(seed: u64, n: usize, inputs: &[&str]) -> Vec<usize> {
+    (0..n).filter(|&i| build(seed, i).argv_inputs.iter().map(|s| s.as_str()).collect::<Vec<_>>() == inputs).collect()
+}
+
+pub fn debug_case(env: &Env, i: usize, times: usize) {
+    let b = build(env.seed, i);
+    println!("argv {:?}\nshapes {:?}\nsymlinks {:?}", b.case.argv, b.shapes, b.world.symlinks);
+    for (p, f) in &b.world.files {
+        println!("--- {p}\n{}", f.text().unwrap_or(""));
+    }
+    for t in 0..times {
+        let runner = Runner::new(&env.bin, &env.shim, &env.scratch, t % 16);
+        let o = runner.run(&b.case).unwrap();
+        let v = judge(&runner, &b, &o);
+        println!("run {t}: exit {:?} verdict {:?}", o.exit, v.map(|x| x.0));
+        if t == 0 {
+            println!("{}", o.stdout.lines().filter(|l| l.starts_with("circomspect") || l.starts_with("error")).collect::<Vec<_>>().join("\n"));
+        }
+    }
 }
